@@ -15,14 +15,14 @@ import os
 from harness import Test, Sweep, Fail, st, Sym
 from gens import expand
 import pyref.bign as RB
-from errs import E, name as ename
+from errs import name as ename
 
 RULE = ("cases: 3 bign curves (l=128 mostly in quick) x {BMQV (kca,kcb in {0,1}^2), BSTS (1,1), BPACE ({0,1}^2), BAUTH (1,{0,1})} x hello strings "
         "(null / empty / 1..64 octets, each side) x certificates name||pubkey with names 0..20 (and 330..700 for the multi-block read path of the BSTS drivers) "
         "x passwords 0..40 octets x generator tapes (rejected samples 0 / 2^2l-1 / q before the ephemeral key, ephemeral key in {1, 2, q-1, random}, tape tail then filler); "
         "honest: step by step on states of exactly keep(l) octets + RunA/RunB fed from the recorded messages; "
         "tampering (full re-run from fresh states, same tapes): single-octet xor of every field of every message M1..M4, truncation by one octet (BSTS M2/M3, BAUTH M3), "
-        "point := (0,0), (x,y+1), x>=p, y>=p, point of the twist, (x,p-y) where y is bound (BMQV, BSTS, BAUTH with kcb); different passwords; unrelated private key / certificate. "
+        "point := (0,0), (x,y+1), x>=p, y>=p, point of the twist, (x,0) (order 2 on an invalid curve; BAUTH: with Rct re-wrapped under the predictable key), (x,p-y) where y is bound (BMQV, BSTS, BAUTH with kcb); different passwords; unrelated private key / certificate. "
         "non-trivial: any tampered or mismatched run, any RunA/RunB run, kca != kcb; distinct by (protocol, l, kca, kcb, message, field, kind, outcome)")
 LEVEL = "exploration"
 ASSUMPTIONS = ["bign key pairs are produced by pyref/bign.py (checked against the library in C02)",
@@ -332,20 +332,9 @@ def base_sig(env):
     return (env["proto"], env["l"], env["kca"], env["kcb"])
 
 
-def known(c):
-    # REPORTED: btokBAuthCTStep4 (btok_bauth.c:479) hashes no / 2 = l / 8 octets of Rt from M2 = Tt[8] || Rt[16], the terminal (TStep3)
-    # and the header use 16: with kcb == TRUE and l in {192, 256} the honest run reads 8 / 16 octets past M2 (ASan: heap-buffer-overflow,
-    # READ in beltHashStepH <- btokBAuthCTStep4) and, on a longer buffer, CTStep4 returns ERR_AUTH.  Only this exact class is skipped.
-    if c["proto"] == "BAUTH" and c["kcb"] and c["l"] > 128:
-        return "BAUTH_kcb_l%d_Rt_length" % c["l"]
-    return None
-
-
 # ------------------------------------------------------------------ test 1: honest runs (steps + drivers)
 def run_honest(ctx, c):
     x = ctx.x
-    if known(c):
-        ctx.exclude(known(c)); return
     env = mk_env(x, c)
     res = do_run(x, env)
     check_honest(env, res)
@@ -401,6 +390,8 @@ def alter(env, lay, kind, pos, mask, m):
         xv = (xv + 1 + pos) % p
         while pow((xv ** 3 + M["a"] * xv + M["b"]) % p, (p - 1) // 2, p) != p - 1:
             xv = (xv + 1) % p
+    elif kind == "ord2":
+        yv = 0                  # (x, 0): a point of order 2 of the curve y^2 = x^3 + a x + b', b' != b (the addition formulas do not use b)
     elif kind == "neg":
         yv = (p - yv) % p
     return m[:off] + xv.to_bytes(no, "little") + yv.to_bytes(no, "little") + m[off + 2 * no:], name, kind
@@ -412,7 +403,7 @@ def expect(env, mi, field, fk, newm, lay):
     steps = plan(env)
     recv = [fn for role, fn, tmpl, inp, outlen, send in steps if inp == mi][0]
     names = [fn for role, fn, tmpl, inp, outlen, send in steps]
-    if fk in ("pt", "zero", "y1", "xp", "yp", "twist"):
+    if fk in ("pt", "zero", "y1", "xp", "yp", "twist", "ord2"):
         name, off, ln = point_field(lay)
         pt = RB.point_from_octets(env["M"], newm[off:off + 2 * no])
         if RB.curve(env["M"]).is_on(pt):
@@ -481,6 +472,16 @@ def resolve(env, L, t):
 def one_tamper(ctx, env, L, msgs, mi, kind, pos, mask, drv=False):
     x = ctx.x
     newm, field, fk = alter(env, L[mi], kind, pos, mask, msgs[mi])
+    if kind == "ord2" and env["proto"] == "BAUTH":
+        # invalid-curve probe: dt (x, 0) is (x, 0) for odd dt, so the attacker knows K = x and can wrap an Rct of his choice under it;
+        # only the on-curve test of TStep3 stands between this M1 and ERR_OK
+        no = env["no"]
+        Z = x.out(no // 2 + 16)
+        r = x.call("beltKWPWrap", Z, x.buf(expand(env["sd"] + "r2", no // 2)), no // 2, x.buf(bytes(16)), x.buf(newm[:32]), 32)
+        if r:
+            raise Fail("beltKWPWrap failed: %s" % ename(r))
+        newm = newm[:2 * no] + Z.read()
+        x.free(Z)
     exp = expect(env, mi, field, fk, newm, L[mi])
     what = "%s M%d.%s %s" % (env["proto"], mi + 1, field, kind if kind != "oct" else "octet %d ^= %02x" % (pos, mask))
     res = do_run(x, env, mitm=(mi, swap(msgs[mi], newm)))
@@ -509,8 +510,6 @@ def baseline(ctx, c):
 
 
 def run_tamper(ctx, c):
-    if known(c):
-        ctx.exclude(known(c)); return
     env, L, msgs = baseline(ctx, c)
     for t in c["tampers"]:
         mi, kind, pos = resolve(env, L, t)
@@ -524,12 +523,11 @@ def sweep_cases(tier):
     out = []
     for l in (128, 192, 256):
         for j, (pr, kca, kcb) in enumerate(COMBOS):
-            if tier == "quick" and l > 128 and (pr, kca, kcb) not in (("BMQV", True, True), ("BSTS", True, True), ("BPACE", True, True), ("BAUTH", True, False)):
+            if tier == "quick" and l > 128 and (pr, kca, kcb) not in (("BMQV", True, True), ("BSTS", True, True), ("BPACE", True, True), ("BAUTH", True, True)):
                 continue
             c = {"proto": pr, "kca": kca, "kcb": kcb, "l": l, "seed": "a%x%02x" % (l // 64, j), "ha": [None, 0, 5, 33][j % 4], "hb": [7, None, 64, 0][j % 4],
                  "na": 5, "nb": 3, "pw": 4 + j, "ta": plain, "tb": plain}
-            if not known(c):
-                out.append(c)
+            out.append(c)
     return out
 
 
@@ -582,8 +580,6 @@ def expect_mismatch(env, kind):
 
 def run_mismatch(ctx, c):
     x = ctx.x
-    if known(c):
-        ctx.exclude(known(c)); return
     env = mk_env(x, c)
     pr = env["proto"]
     if pr == "BPACE":
@@ -640,7 +636,7 @@ def s_case(tier, extra):
     return st.fixed_dictionaries(d).map(fix)
 
 
-KINDS = ["oct"] * 8 + ["trunc", "trunc", "zero", "y1", "xp", "yp", "twist", "neg", "neg"]
+KINDS = ["oct"] * 8 + ["trunc", "trunc", "zero", "y1", "xp", "yp", "twist", "ord2", "ord2", "neg", "neg"]
 
 
 def tests(tier):
